@@ -23,7 +23,7 @@ def sh(cmd, **kw):
 def clean_repo():
     sh("git -C /repo checkout -- . && git -C /repo clean -fdq -e '*.egg-info'")
     # the generated Lean sources were rewritten for the mutated tree: restore the committed (clean-tree) versions
-    sh(f"git -C {V} checkout -- lean/E3nnVerif/Generated")
+    sh(f"git -C {V} checkout -- lean/E3nnVerif/Generated lean/E3nnVerif/Cert")
 
 
 def main():
@@ -65,7 +65,7 @@ def main():
         finally:
             if use_wt:
                 sh(f"git -C /repo worktree remove --force {wt}")
-                sh(f"git -C {V} checkout -- lean/E3nnVerif/Generated")
+                sh(f"git -C {V} checkout -- lean/E3nnVerif/Generated lean/E3nnVerif/Cert")
             else:
                 clean_repo()
         res["detected_by"] = [x["check"] for x in res["runs"] if x["exit"] == 1 and x["n_violations"] > 0]
